@@ -147,6 +147,10 @@ class BaseNode(Node):
         # copy value type modify values and units
         value = self.value.copy()
         value.value = self.cast_value(node.value_raw)
+        if value.value is None:
+            # assigning 'none': the node stays defined, with an empty value
+            self.value = value
+            return
         if isinstance(value, (IntegerType, FloatType)):
             value.unit = node.units_raw
             value.convert(self.units_raw, env)
